@@ -368,6 +368,9 @@ func (circFamily) Exec(c *hc.Case) {
 	if c.ID%8 == 1 {
 		foreignCtxProbe(c, tags)
 	}
+	if c.ID%8 == 2 {
+		zeroDeadlineProbe(c, tags)
+	}
 	for t := range tags {
 		c.Tags = append(c.Tags, t)
 	}
